@@ -621,7 +621,7 @@ func deserialize(buf *bytes.Buffer) (*Pset, error) {
 	}
 
 	inputs := make([]Input, 0)
-	for i := 0; i < int(global.InputCount); i++ {
+	for i := uint64(0); i < global.InputCount; i++ {
 		input := Input{}
 		if err := input.deserialize(buf); err != nil {
 			return nil, err
@@ -631,7 +631,7 @@ func deserialize(buf *bytes.Buffer) (*Pset, error) {
 	}
 
 	outputs := make([]Output, 0)
-	for i := 0; i < int(global.OutputCount); i++ {
+	for i := uint64(0); i < global.OutputCount; i++ {
 		output := Output{}
 		err := output.deserialize(buf)
 		if err != nil {
